@@ -6,10 +6,11 @@ usage: seed_import.py <agent-worktree> [<agent-worktree> ...]
 """
 import sys, os, json, shutil, subprocess, re
 V = os.path.dirname(os.path.dirname(os.path.abspath(__file__)))
-EVAL = "/tmp/wt/eval"
+EVAL = os.environ.get("SEED_EVAL", "/tmp/wt/eval")
 # checks of other properties (or the thorough tier) that are also run for a seeded change, where its own property's quick check is not the one that sees it
 EXTRA = {"C06-m4": ["C12"], "C02-m4": ["C12"], "C03-m3": ["C13"], "C03-m4": ["C12"], "C04-m4": ["C12"], "C10-m4": ["C12"], "C16-m3": ["C13"],
-         "C16-m4": ["C11"], "C20-m4": ["C08"], "C18-m3": ["C12"], "C12-m3": ["C18"], "C15-m4": ["C15@thorough"], "C16-m2": ["C08"], "C12-m2": ["C06"], "C20-m3": ["C19"]}
+         "C16-m4": ["C11"], "C20-m4": ["C08"], "C18-m3": ["C12"], "C12-m3": ["C18"], "C15-m4": ["C15@thorough"], "C16-m2": ["C08"], "C12-m2": ["C06"], "C20-m3": ["C19"],
+         "C16-m5": ["C13"], "C16-m6": ["C11"], "C03-m6": ["C13"], "C17-m5": ["C13"], "C15-m5": ["C06"], "C15-m6": ["C01"], "C13-m6": ["C17"], "C17-m6": ["C13"]}
 
 
 def sh(cmd, **kw):
